@@ -195,8 +195,11 @@ fn run_one<const N: usize, P: Pad>(
                 step(&mut h, &mut model, &f, &mut env, ctx, &MonCfg::LIGHT, None, None);
             }
             *vc = env.vc;
-            let fk = if fired { Some(fault.0) } else { None };
-            teardown(h, ctx, op.name(), fk, fk == Some(FpKind::Drop));
+            // if attribution was switched off (a fault-independent defect showed up in a control
+            // execution) the teardown is not blamed on the fault either
+            let fk = if fired && ctx.attribute.is_some() { Some(fault.0) } else { None };
+            let leak_ok = fired && fault.0 == FpKind::Drop;
+            teardown(h, ctx, op.name(), fk, leak_ok);
             ctx.attribute = None;
             (fired, out.fp_count)
         }
@@ -206,7 +209,6 @@ fn run_one<const N: usize, P: Pad>(
 }
 
 pub fn faults<const N: usize, P: Pad>(ctx: &mut Ctx) {
-    ctx.panic_props = vec!["C11", "C05", "C06", "C01"];
     let thorough = ctx.args.thorough;
     let kinds: Vec<FpKind> = match ctx.args.get("kinds") {
         Some("drop") => vec![FpKind::Drop],
